@@ -562,6 +562,9 @@ func (h *H) Step(line string) {
 		class := try(func() { b = h.w.Shrink(0) })
 		h.result(class, strconv.Itoa(b2i(b)))
 	case "locked":
+		// before the lock state is read: queries whose ARGUMENTS are rejected (a relation given by index to
+		// the ID-based API; a relation component that is not one) must not take a lock bit on their way out
+		h.rejectedQueries()
 		h.emit("ok " + strconv.Itoa(b2i(h.w.IsLocked())))
 	case "stats":
 		var res string
